@@ -15,6 +15,7 @@ type Loop struct {
 	ord    int
 	mod    map[string]Sort
 	locals map[*ssa.Alloc]bool
+	lpaths map[*ssa.Alloc][][]int // stored sub-paths of a local (nil entry = whole variable)
 	iters  map[ssa.Value]bool
 }
 
@@ -78,6 +79,7 @@ func (e *Exec) loopMod(fn *ssa.Function, lp *Loop) {
 	}
 	lp.mod = map[string]Sort{}
 	lp.locals = map[*ssa.Alloc]bool{}
+	lp.lpaths = map[*ssa.Alloc][][]int{}
 	lp.iters = map[ssa.Value]bool{}
 	for _, b := range fn.Blocks {
 		if !lp.blocks[b.Index] {
@@ -85,6 +87,11 @@ func (e *Exec) loopMod(fn *ssa.Function, lp *Loop) {
 		}
 		for _, in := range b.Instrs {
 			e.instrMod(fn, in, lp.mod, lp.locals, map[*ssa.Function]bool{})
+			if stI, ok := in.(*ssa.Store); ok {
+				if a, ok := storeRoot(stI.Addr).(*ssa.Alloc); ok && !a.Heap {
+					lp.lpaths[a] = append(lp.lpaths[a], localPath(stI.Addr))
+				}
+			}
 			if nx, ok := in.(*ssa.Next); ok {
 				lp.iters[nx.Iter] = true
 			}
@@ -110,6 +117,29 @@ func leafHeaps(t types.Type, out map[string]Sort) {
 		defer func() { recover() }() // unsupported sorts contribute nothing
 		h, s := cellHeap(t)
 		out[h] = s
+	}
+}
+
+// localPath: field path of a store address below its root (nil = whole / unknown)
+func localPath(addr ssa.Value) []int {
+	var rev []int
+	for {
+		switch a := addr.(type) {
+		case *ssa.FieldAddr:
+			rev = append(rev, a.Field)
+			addr = a.X
+		case *ssa.Alloc:
+			if len(rev) == 0 {
+				return nil
+			}
+			out := make([]int, len(rev))
+			for i := range rev {
+				out[i] = rev[len(rev)-1-i]
+			}
+			return out
+		default:
+			return nil
+		}
 	}
 }
 
@@ -491,22 +521,56 @@ func (e *Exec) enterLoopHeader(st *State, fr *Frame, lp *Loop) bool {
 	// heaps the loop may write that the function's modifies clause does not
 	// list: the frame must be carried through the loop as an invariant
 	curMod := lp.mod
+	type restrSpec struct {
+		heaps map[string]Sort
+		expr  string
+	}
+	var restrs []restrSpec
 	if spec != nil && len(spec.Modifies) > 0 {
 		curMod = map[string]Sort{}
 		ctx := &SpecCtx{e: e, pkg: fr.fn.Pkg.Pkg}
 		for _, m := range spec.Modifies {
-			if m != "nothing" {
-				e.addNamedHeap(m, ctx, curMod)
+			if m == "nothing" {
+				continue
 			}
+			if i := strings.Index(m, "@"); i > 0 {
+				hm := map[string]Sort{}
+				e.addNamedHeap(m[:i], ctx, hm)
+				for k, v := range hm {
+					curMod[k] = v
+				}
+				restrs = append(restrs, restrSpec{hm, m[i+1:]})
+				continue
+			}
+			e.addNamedHeap(m, ctx, curMod)
 		}
+	}
+	// value of a restriction expression (a slice) in the current state
+	restrArr := func(expr string) *Term {
+		if expr == "none" {
+			return IntLit(0)
+		}
+		ex, err := parseSpecExpr(expr)
+		if err != nil {
+			panic(sperr("%v", err))
+		}
+		ctx := e.loopCtx(st, fr, ctr)
+		v, _ := ctx.eval(ex)
+		return SlArr(e.term(v))
 	}
 	var autoFrame []string
 	topEntry := st.frames[0].entry
 	if e.topC.HasModifies && topEntry != nil {
 		declared := e.modOfContract(e.topC, nil)
 		if _, all := declared["*"]; !all {
+			restricted := map[string]bool{}
+			for _, r := range restrs {
+				for h := range r.heaps {
+					restricted[h] = true
+				}
+			}
 			for name, srt := range curMod {
-				if _, ok := declared[name]; !ok && name != "*" && srt.IsArr() {
+				if _, ok := declared[name]; !ok && name != "*" && srt.IsArr() && !restricted[name] {
 					autoFrame = append(autoFrame, name)
 				}
 			}
@@ -554,6 +618,15 @@ func (e *Exec) enterLoopHeader(st *State, fr *Frame, lp *Loop) bool {
 			e.check(st, fr, "INV.keep", lp.header.Instrs[0], fmt.Sprintf("loop %d: %s", lp.ord, names(k)), t)
 		}
 		if hs := fr.heads[hdr]; hs != nil {
+			for _, r := range hs.restr {
+				cur := st.heap(r.heap, r.sort)
+				a := restrArr(r.expr)
+				e.check(st, fr, "LOOPFRAME", lp.header.Instrs[0], fmt.Sprintf("loop %d: %s is the array of loop entry or was allocated later", lp.ord, r.expr),
+					Or(Eq(a, r.root), Not(Allocd(r.nowEntry, a))))
+				x := BoundVar("x", SInt)
+				e.check(st, fr, "LOOPFRAME", lp.header.Instrs[0], fmt.Sprintf("loop %d writes %s only through %s", lp.ord, r.heap, r.expr),
+					Forall([]*Term{x}, Implies(And(Allocd(r.nowEntry, x), Neq(App("rroot", SInt, x), r.root)), Eq(Select(cur, x), Select(r.entryHeap, x)))))
+			}
 			// heaps outside the loop's modifies clause: objects that existed at the
 			// loop head must be unchanged by the iteration
 			var nm []string
@@ -583,10 +656,33 @@ func (e *Exec) enterLoopHeader(st *State, fr *Frame, lp *Loop) bool {
 	}
 	// havoc
 	mod := curMod
+	var restr []restrictEntry
+	for _, r := range restrs {
+		root := nameGround(restrArr(r.expr))
+		for h, srt := range r.heaps {
+			restr = append(restr, restrictEntry{heap: h, sort: srt, root: root, entryHeap: st.heap(h, srt), nowEntry: st.alloc, expr: r.expr})
+		}
+	}
 	e.havocMod(st, mod)
 	for a := range lp.locals {
 		if c, ok := fr.locals[a]; ok {
-			c.v = e.freshVal(st, "loop."+c.name, c.T)
+			whole := false
+			for _, p := range lp.lpaths[a] {
+				if p == nil {
+					whole = true
+				}
+			}
+			if whole || len(lp.lpaths[a]) == 0 {
+				c.v = e.freshVal(st, "loop."+c.name, c.T)
+				continue
+			}
+			for _, p := range lp.lpaths[a] {
+				t := c.T
+				for _, i := range p {
+					t = under(t).(*types.Struct).Field(i).Type()
+				}
+				c.v = pathSet(c.v, p, e.freshVal(st, "loop."+c.name, t))
+			}
 		}
 	}
 	for it := range lp.iters {
@@ -597,6 +693,13 @@ func (e *Exec) enterLoopHeader(st *State, fr *Frame, lp *Loop) bool {
 	for _, t := range evalInvs() {
 		e.assume(t)
 	}
+	for _, r := range restr {
+		nh := st.heap(r.heap, r.sort)
+		x := BoundVar("x", SInt)
+		e.assume(Forall([]*Term{x}, Implies(And(Allocd(r.nowEntry, x), Neq(App("rroot", SInt, x), r.root)), Eq(Select(nh, x), Select(r.entryHeap, x))), []*Term{Select(nh, x)}))
+		a := restrArr(r.expr)
+		e.assume(Or(Eq(a, r.root), Not(Allocd(r.nowEntry, a))))
+	}
 	fr.inCut[hdr] = true
 	if spec != nil && len(spec.Modifies) > 0 {
 		if fr.heads == nil {
@@ -604,6 +707,7 @@ func (e *Exec) enterLoopHeader(st *State, fr *Frame, lp *Loop) bool {
 		}
 		fr.heads[hdr] = st.snapshot()
 		fr.heads[hdr].mods = mod
+		fr.heads[hdr].restr = restr
 	}
 	// nested loops start afresh
 	for _, other := range e.loopInfo(fr.fn).list {
